@@ -885,6 +885,9 @@ func genCase(t *rapid.T, g genOpts) kase {
 	}
 	span := c.Threshold + 3
 	allowBad := g.badOneIn > 0 && rapid.IntRange(1, g.badOneIn).Draw(t, "allowbad") == g.badOneIn
+	// one case in four has a provider outage: HAProxy logs "duration" (%Tr) as -1 for a transaction whose server
+	// never answered, so most records of such a case carry -1 (and a small total duration)
+	outage := rapid.IntRange(0, 3).Draw(t, "outage") == 0
 	recGen := func(url string) *rapid.Generator[rec] {
 		return rapid.Custom(func(t *rapid.T) rec {
 			r := rec{U: url}
@@ -908,6 +911,12 @@ func genCase(t *rapid.T, g genOpts) kase {
 			r.S = rapid.SampledFrom([]int{200, 200, 200, 201, 404, 429, 500, 503}).Draw(t, "status")
 			r.D = rapid.OneOf(rapid.IntRange(0, 1000), rapid.IntRange(0, 1_000_000)).Draw(t, "dur")
 			r.TD = r.D + rapid.IntRange(0, 500).Draw(t, "extra")
+			if outage && rapid.IntRange(0, 4).Draw(t, "unanswered") > 0 {
+				r.D, r.TD = -1, rapid.IntRange(0, 3).Draw(t, "aborted-after")
+			} else if outage {
+				r.D = rapid.IntRange(0, 3).Draw(t, "quick")
+				r.TD = r.D + 1
+			}
 			r.T = 1_700_000_000_000 + int64(rapid.OneOf(rapid.IntRange(0, 3000), rapid.IntRange(0, 5_000_000)).Draw(t, "ts"))
 			r.C = rapid.SampledFrom([]string{"", "", "a", "b"}).Draw(t, "consumer")
 			r.I = rapid.SampledFrom([]string{"lunar-aiohttp-interceptor/2.0.2", "lunar-aiohttp-interceptor/2.0.2", "lunar-py/1.0", "", "bad", "a/b/c"}).Draw(t, "interceptor")
